@@ -331,6 +331,8 @@ def run(chk):
     _solewaiter_rule(chk, prog)
     _closeboth_rule(chk, prog)
     _procclose_rule(chk, prog)
+    _sigpipe_rule(chk, prog)
+    _register_rule(chk, prog)
 
 
 def _solewaiter_rule(chk, prog):
@@ -453,3 +455,70 @@ def _procclose_rule(chk, prog):
                               "os/proc-close starts waiting for the process before it has closed the pipes it owns")
     if n < 2:
         raise AnalysisBroken("os_proc_close: exits not recognised (%d)" % n)
+
+
+def _sigpipe_rule(chk, prog):
+    """write(2) on a pipe whose read end is closed raises SIGPIPE, whose default action ends the process - the write
+    neither completes nor raises a Janet error.  Sockets are written with send(..., MSG_NOSIGNAL); a plain write on a
+    stream descriptor is only safe if the process has arranged for SIGPIPE not to be delivered."""
+    rule = "C16-SIGPIPE"
+    chk.rule(rule, "a stream write that uses write(2) cannot end the process with SIGPIPE (the signal is ignored or blocked by the runtime)")
+    sites = []
+    for fn in prog.all_funcs():
+        for c in fn.calls("write"):
+            if c.args and any(y.k == "mem" and y.field == "handle" and y.rec == "JanetStream" for y in c.args[0].walk()):
+                sites.append((fn, c))
+    if not sites:
+        raise AnalysisBroken("no write(2) on a stream handle found")
+    protected = None
+    for fn in prog.all_funcs():
+        for c in fn.calls("signal", "sigaction", "sigaddset", "pthread_sigmask"):
+            if c.args and (strip_casts(c.args[0]).v == 13 or any(strip_casts(a).v == 13 for a in c.args) or "SIGPIPE" in c.text()):
+                protected = (fn, c)
+    for fn, c in sites:
+        chk.analysed(fn)
+        chk.instance(rule)
+        if protected:
+            chk.ok(rule, "%s: write on a stream handle; SIGPIPE disposition set in %s" % (fn.name, protected[0].name))
+        else:
+            chk.violation(rule, fn.tu.name, fn.name, "write:SIGPIPE", c.loc,
+                          "`%s` writes to a stream descriptor with write(2) and nothing in the runtime ignores or blocks SIGPIPE: "
+                          "writing to a pipe whose reader has gone ends the whole process (exit 141) instead of raising an error in "
+                          "the writing fiber" % c.text()[:50])
+
+
+def _register_rule(chk, prog):
+    """A stream's descriptor produces events only for the event loop it has been registered with.  Both ways of making a
+    JanetStream - the constructor and unmarshalling one that another thread sent - create a new object around a new
+    descriptor in the current thread, so both have to register it."""
+    rule = "C16-REGISTER"
+    chk.rule(rule, "every function that creates a JanetStream object registers it with the current thread's event loop before returning it")
+    n = 0
+    for fn in prog.tus["ev.c"].funcs.values():
+        made = []
+        for x in fn.nodes:
+            if x.k == "vardecl" and x.kids and "JanetStream *" in (x.t or ""):
+                r = strip_casts(x.kids[0])
+                if r.k == "call" and r.callee in ("janet_abstract", "janet_unmarshal_abstract", "janet_abstract_threaded"):
+                    made.append(x)
+        if not made:
+            continue
+        chk.analysed(fn)
+
+        def transfer(st, x):
+            if x.k == "call" and x.callee in ("janet_register_stream", "janet_register_stream_impl"):
+                return st | frozenset(["reg"])
+            return st
+        IN, OUT = flow.forward(fn, frozenset(), transfer, lambda a, b: a & b)
+        for x, st in flow.states_at(fn, IN, transfer):
+            if x.k == "return" and x.kids:
+                n += 1
+                chk.instance(rule)
+                if "reg" in st:
+                    chk.ok(rule, "%s: stream registered before it is returned" % fn.name)
+                else:
+                    chk.violation(rule, "ev.c", fn.name, "unregistered-return", x.loc,
+                                  "%s returns a newly created JanetStream on a path that has not registered its descriptor with this "
+                                  "thread's event loop: no readiness event will ever arrive for it, so a read or write that cannot complete "
+                                  "at once waits for ever" % fn.name)
+    chk.floor(rule, 2, n)
